@@ -23,7 +23,9 @@ def build(tier, seed):
                     unwind=16, kind='negctl', sample={'wrong_oracle': '4 bytes enough for every 32-bit varint'}))
     import C09_crc
     J += C09_crc.jobs(tier, seed)
+    import C07
+    J += C07.save_jobs('C09', ['c09_faults', 'c07_crash'], tier)
     return dict(jobs=J, bounds={'untrusted_bytes': 12 if tier == 'quick' else 16, 'STREAM_SIZE': 4 if tier == 'quick' else 3},
         assumptions=['read() may return any count in 1..min(asked, remaining); crc32c stubbed in the decoder harness (its definition is decided in the CRC obligations)'],
         trusted=['cbmc 6.11.0', 'kissat', 'read()/write() memory-file stubs'],
-        outside=['longer files', 'whole state_read_content loop (see DESIGN.md C09-3)'])
+        outside=['longer files', 'whole state_read_content loop (see DESIGN.md C09-3)', 'more than 2 (3 thorough) content copies'])
